@@ -401,3 +401,73 @@ async def scenario_second_connection():
         return judge_trace(sess.log, sess.received, inp, finished=True)
     finally:
         sess.cleanup()
+
+
+# ---------------------------------------------------------------------------------------------------------------------
+# connection collision while a session is being established (RFC 4271 6.8): a second incoming connection is accepted by
+# Peer.handle_connection while _establish awaits the peer's OPEN (OPENSENT) or KEEPALIVE (OPENCONFIRM, remote router-id
+# higher).  The old transport is closed and the new one installed: the new one must then be DRIVEN (our OPEN arrives on it),
+# never held while the FSM sits in IDLE.
+async def scenario_collision(state):
+    from exabgp.protocol.family import AFI
+    from exabgp.reactor.network.incoming import Incoming
+
+    sess = Traced()
+    inp = {'scenario': f'collision: second incoming connection accepted in {state}'}
+    try:
+        try:
+            # remote router-id above ours (10.0.0.2) so that the OPENCONFIRM rule keeps the NEW connection
+            await sess.to_state(state, peer_open=S.open_msg(rid='10.0.0.9'))
+        except RuntimeError as e:
+            return {'what': f'harness: {e}', 'input': inp, 'harness': True}
+        ours, theirs = S.tcp_pair()
+        second = S.Remote(theirs)
+        refused = sess.peer.handle_connection(Incoming(AFI.ipv4, '127.0.0.1', '127.0.0.1', ours))
+        if refused is not None:
+            return {'what': 'harness: the second connection was refused, not accepted', 'input': inp, 'harness': True}
+        got = await second.read_message(timeout=2.5)
+        state_now = sess.peer.fsm.name()
+        new_open = sess.peer.proto is not None and sess.peer.proto.connection is not None and sess.peer.proto.connection.io is not None
+        sess.peer.teardown(2)
+        theirs.close()
+        sess.remote.sock.close()
+        await sess.finish(timeout=4)
+        if got is None or got[0] != 1:
+            return {'what': f'collision in {state}: the accepted connection was not driven: nothing arrived on it in 2.5 s (FSM {state_now}, its transport {"open" if new_open else "closed"}) -- T4: a transport is held open while the FSM is in {state_now}', 'input': inp, 'collision_state': state}
+        return None
+    finally:
+        sess.cleanup()
+
+
+def _collision(state):
+    return S.run(scenario_collision(state), 30)
+
+
+@bounded('C05', 'collisions-during-establishment')
+def collisions_during_establishment(tier, seed):
+    import multiprocessing as mp
+
+    states = ['OPENSENT', 'OPENCONFIRM']
+    with mp.get_context('fork').Pool(2) as pool:
+        res = pool.map(_collision, states)
+    crashes = [r for r in res if r and r.get('harness')]
+    if crashes:
+        raise RuntimeError('session harness failed: ' + crashes[0]['what'])
+    fails = [r for r in res if r]
+    return {'evaluations': len(states), 'distinct_nontrivial': len(states), 'bound': 'a second incoming connection handed to the real Peer.handle_connection while the first is in OPENSENT / OPENCONFIRM (remote router-id higher): real Peer over loopback TCP, the accepted connection observed for 2.5 s', 'rule': 'one case = the state at the collision', 'samples': [{'state': 'OPENSENT'}], 'failures': fails}
+
+
+@replayer('C05', 'collisions-during-establishment')
+def _replay_collision(f):
+    return _collision(f['collision_state']) is None
+
+
+from .registry import region  # noqa: E402
+
+
+@region('C05-collision-during-establishment')
+def collision_region(failure):
+    """recorded defect: a connection accepted by Peer.handle_connection while Peer._establish awaits a message on the
+    previous connection is installed but never driven (the establishing coroutine keeps awaiting the closed socket).
+    Only the two establishing states, only this observation."""
+    return failure.get('collision_state') in ('OPENSENT', 'OPENCONFIRM') and 'was not driven' in failure.get('what', '')
